@@ -108,6 +108,8 @@ static void life(const Cycle& c, bool enabled, bool solo, Acquire acquire, Acqui
         case R_MOVE_CTOR: {
             auto* h2 = new H(std::move(h));
             if (vrf::held_count() != held_with) fail("oracle:move_construction_changed_lock_ownership", c);
+            // the lock went with the new handle: the moved-from one holds nothing, so it is null
+            if (h) fail("oracle:moved_from_handle_still_non_null", c, "\"after move construction\"");
             if (enabled && static_cast<bool>(*h2) != (held_with == before + 1)) fail("oracle:moved_to_handle_state_wrong", c);
             if (c.moved_from_first) {
                 { H dead(std::move(h)); }  // destroy a (twice) moved-from handle: must not release anything
@@ -129,6 +131,7 @@ static void life(const Cycle& c, bool enabled, bool solo, Acquire acquire, Acqui
             // the target now stands for what the source stood for - also when the source was a failed attempt (null)
             if (enabled && static_cast<bool>(g) != source_held)
                 fail("oracle:move_assigned_handle_state_wrong", c, source_held ? "\"null although it took over a held lock\"" : "\"non-null although it was assigned from a null handle\"");
+            if (h) fail("oracle:moved_from_handle_still_non_null", c, "\"after move assignment\"");
             size_t expect = held_with;  // other released (if it was held), ours transferred
             if (vrf::held_count() != expect) fail("oracle:move_assignment_lock_count_wrong", c, "\"held " + std::to_string(vrf::held_count()) + " expected " + std::to_string(expect) + " (before assign " + std::to_string(with_other) + ")\"");
             { H dead(std::move(h)); }
